@@ -161,6 +161,20 @@ func runC16(c *engine.Case) engine.Result {
 			fail = "ReadJsonString failed: " + err.Error()
 			return
 		}
+		// the same document with every character JSON allows raw left unescaped
+		if raw := ref.JSONRaw(v); raw != c.A && utf8.ValidString(raw) {
+			nr, err := jd.ReadJsonString(raw)
+			res.Transitions++
+			if err != nil {
+				fail = fmt.Sprintf("ReadJsonString fails on the unescaped form %q: %v", raw, err)
+				return
+			}
+			rv, err := impl.ToV(nr)
+			if !nr.Equals(nj) || err != nil || !ref.Equal(rv, v, ref.List) {
+				fail = fmt.Sprintf("the unescaped form %q reads as %s, the escaped form %q as %s", raw, nr.Json(), c.A, nj.Json())
+				return
+			}
+		}
 		for _, w := range []struct{ name, text string }{{"flow", ref.YAMLFlow(v)}, {"block", ref.YAMLBlock(v)}} {
 			ny, err := jd.ReadYamlString(w.text)
 			res.Transitions++
